@@ -147,21 +147,36 @@ def ownedByOther (t : Torrent) (pid : Nat) (conn : ConnId) : Bool :=
   | some p => !decide (p.owner = conn)
   | none => false
 
-/-- `TorrentMap::handle_announce_request` (ownership compared on socket worker *and* slot key) -/
+/-- offers, then the answer (both skipped for a `stopped` announce) -/
+def relayPart (cfg : WsCfg) (t1 : Torrent) (conn : ConnId) (req : AnnReq) (now o1 o2 : Nat) :
+    Except Panic (Torrent × List Msg) :=
+  match offersPart cfg t1 now req o1 o2 with
+  | .error e => .error e
+  | .ok r => .ok ((answerPart r.1 conn req).1, r.2 ++ (answerPart r.1 conn req).2)
+
+/-- an announce that is not ignored, on its torrent -/
+def announceLive (cfg : WsCfg) (t : Torrent) (conn : ConnId) (req : AnnReq) (now o1 o2 : Nat) :
+    Except Panic (Torrent × List Msg) :=
+  match insertOrUpdate t conn req.pid (wsStatus req.stopped req.left) (validUntilNew now cfg.maxPeerAge) with
+  | .error e => .error e
+  | .ok t1 =>
+    match (if wsStatus req.stopped req.left = .stopped then .ok (t1, []) else relayPart cfg t1 conn req now o1 o2) with
+    | .error e => .error e
+    | .ok r =>
+      match csub r.1.peers.length r.1.numSeeders with
+      | .error e => .error e
+      | .ok inc => .ok (r.1, r.2 ++ [Msg.announce conn req.hash r.1.numSeeders inc])
+
+/-- `TorrentMap::handle_announce_request` (ownership compared on socket worker *and* slot key);
+`entry(info_hash).or_default()` creates the torrent even when the request is ignored -/
 def announce (cfg : WsCfg) (m : WMap) (conn : ConnId) (req : AnnReq) (now o1 o2 : Nat) :
     Except Panic (WMap × List Msg) :=
   let t := (IMap.get m req.hash).getD {}
   if ownedByOther t req.pid conn then .ok (IMap.insert m req.hash t, [])
-  else do
-    let st := wsStatus req.stopped req.left
-    let t1 ← insertOrUpdate t conn req.pid st (validUntilNew now cfg.maxPeerAge)
-    let (t3, msgs) ← (if st = .stopped then pure (t1, [])
-      else do
-        let (t2, m1) ← offersPart cfg t1 now req o1 o2
-        let (t3, m2) := answerPart t2 conn req
-        pure (t3, m1 ++ m2) : Except Panic (Torrent × List Msg))
-    let inc ← csub t3.peers.length t3.numSeeders
-    pure (IMap.insert m req.hash t3, msgs ++ [Msg.announce conn req.hash t3.numSeeders inc])
+  else
+    match announceLive cfg t conn req now o1 o2 with
+    | .error e => .error e
+    | .ok r => .ok (IMap.insert m req.hash r.1, r.2)
 
 /-- `TorrentMap::handle_scrape_request`: per requested hash (first `max_scrape_torrents`), the
 torrents present in the map -/
